@@ -365,10 +365,12 @@ func genCrowd(r *rand.Rand) *Config {
 // GenC13 draws the configuration of run seed for property C13.
 func GenC13(seed uint64, tier string) *Config {
 	r := kernel.NewRand(seed)
-	if Flavour != "race" && r.IntN(900) == 0 {
+	// both draws are made in every flavour, so that the same seed means the same run in the plain and the race build
+	marathon, crowd := r.IntN(900) == 0, r.IntN(300) == 0
+	if marathon && Flavour != "race" {
 		return genMarathon(r)
 	}
-	if Flavour == "auto" && r.IntN(300) == 0 {
+	if crowd && Flavour == "auto" {
 		return genCrowd(r)
 	}
 	maxW := 16
